@@ -498,6 +498,11 @@ impl<'a> Searcher<'a> {
                     });
                 }
 
+                // LIMIT applies to the group rows
+                if self.query.limit > 0 {
+                    results.truncate(self.query.limit as usize);
+                }
+
                 let mut first = true;
                 results.iter().for_each(|items| {
                     let mut buf = WritableBuffer::new();
